@@ -2,6 +2,8 @@ package props
 
 import (
 	"fmt"
+	"path/filepath"
+	"regexp"
 	"sort"
 	"strings"
 	"testing"
@@ -222,6 +224,23 @@ func TestC14(t *testing.T) {
 		r.Cells(len(hg)*len(hg)*2, cells)
 		r.Exhaustive("hosts", !r.Replaying())
 		r.Note("hosts_grid_size", len(hg))
+	}
+
+	// ---- saved fuzz inputs (replays of FuzzC14 crashers)
+	if r.WantLayer("corpus", true) {
+		n := 0
+		for _, f := range fuzzFiles("FuzzC14", "C14") {
+			args, ok := readFuzzArgs(f)
+			if !ok || len(args) != 2 || !r.WantCell(filepath.Base(f)) {
+				continue
+			}
+			n++
+			a, _ := args[0].(string)
+			b, _ := args[1].(string)
+			r.Case("corpus "+filepath.Base(f), true, "corpus")
+			reportAll(r, "corpus", filepath.Base(f), c14FuzzOne(a, b), map[string]interface{}{"a": a, "b": b})
+		}
+		r.Cells(n, n)
 	}
 
 	// ---- random URLs beyond the grid ----
@@ -493,6 +512,74 @@ func TestC14(t *testing.T) {
 		if unk := r.Unknown(bad); len(unk) > 0 {
 			r.Pending("lists", unk[0], detail, map[string]interface{}{"list": ls, "x": x})
 			t.Fatalf("%s: %s", unk[0], detail)
+		}
+	})
+}
+
+// c14FuzzOne checks what the property claims for arbitrary strings: IRI equality never panics, is reflexive and symmetric
+// (both checkScheme values), and membership in an IRI list agrees with it; when both strings are plain absolute URLs of the
+// grid's shape (scheme://host[:port]/path?query#fragment over the grid's character set) the reference normaliser decides too.
+func c14FuzzOne(a, b string) (ds []keyed) {
+	for _, cs := range []bool{false, true} {
+		var ab, ba, aa, bb bool
+		pi := ev.Safe(func() {
+			ab, ba = ap.IRI(a).Equals(ap.IRI(b), cs), ap.IRI(b).Equals(ap.IRI(a), cs)
+			aa, bb = ap.IRI(a).Equals(ap.IRI(a), cs), ap.IRI(b).Equals(ap.IRI(b), cs)
+		})
+		if pi != nil {
+			return []keyed{{"iri panic@" + pi.Frame, fmt.Sprintf("Equals(%q, %q, %v): %s", a, b, cs, pi.Value)}}
+		}
+		if !aa || !bb {
+			ds = append(ds, keyed{"iri strings reflexive", fmt.Sprintf("IRI(%q).Equals(itself, %v) = %v, IRI(%q).Equals(itself) = %v", a, cs, aa, b, bb)})
+		}
+		if ab != ba {
+			ds = append(ds, keyed{"iri strings symmetric", fmt.Sprintf("IRI(%q).Equals(%q, %v) = %v but the converse is %v", a, b, cs, ab, ba)})
+		}
+		if c14Plain.MatchString(a) && c14Plain.MatchString(b) {
+			if want := oracle.EquivIRI(a, b, cs); ab != want {
+				w := "ne"
+				if want {
+					w = "eq"
+				}
+				ds = append(ds, keyed{"iri fuzz plain want=" + w, fmt.Sprintf("IRI(%q).Equals(%q, %v) = %v, reference says %v", a, b, cs, ab, want)})
+			}
+		}
+	}
+	var in bool
+	pi := ev.Safe(func() { in = ap.IRIs{ap.IRI(b)}.Contains(ap.IRI(a)) })
+	if pi != nil {
+		return append(ds, keyed{"iri panic@" + pi.Frame, pi.Value})
+	}
+	if want := ap.IRI(b).Equals(ap.IRI(a), false); in != want && a != "" && b != "" {
+		ds = append(ds, keyed{"iri lists membership", fmt.Sprintf("IRIs{%q}.Contains(%q) = %v, Equals says %v", b, a, in, want)})
+	}
+	return ds
+}
+
+// c14Plain: absolute URLs over the grid's alphabet: lower/upper letters, digits, '.', '-', '_', '~' in host and path, an optional
+// port, dot segments and repeated slashes allowed, a query of key=value pairs in lower case letters and digits, an optional fragment.
+var c14Plain = regexp.MustCompile(`^(?i:https?)://[A-Za-z0-9.-]+(:[0-9]{1,5})?(/[A-Za-z0-9._~/-]*)?(\?[a-z0-9]+=[a-z0-9]*(&[a-z0-9]+=[a-z0-9]*)*)?(#[A-Za-z0-9]*)?$`)
+
+// FuzzC14 is the native coverage-guided target (thorough tier) over pairs of strings.
+func FuzzC14(f *testing.F) {
+	g := c14Grid()
+	for i := 0; i < len(g); i += 97 {
+		f.Add(g[i].s, g[(i*31+7)%len(g)].s)
+	}
+	for _, s := range []string{"", "-", "not a url", "http://", "://x", "https://[::1]:8080/x", "https://example.com/%zz", "mailto:a@b", "/relative/path", "HTTPS://EXAMPLE.COM/A/../B/?x=1#f", "https://example.com/a?x=1&x=2", "\x00", "https://exa mple.com/"} {
+		f.Add(s, "https://example.com/a")
+		f.Add(s, s+"/")
+	}
+	known := ev.LoadFindings("C14")
+	f.Fuzz(func(t *testing.T, a, b string) {
+		if len(a) > 1<<10 || len(b) > 1<<10 {
+			return
+		}
+		for _, d := range c14FuzzOne(a, b) {
+			if known.Peek(d.Key) {
+				continue
+			}
+			t.Fatalf("VIOLATION-KEY property=C14 key=%q detail=%q", d.Key, d.Detail)
 		}
 	})
 }
